@@ -199,6 +199,17 @@ theorem quotedRfc_hq : escChar Gen.quotedRfcPairs '"' = ['"', '"'] := by decide
 theorem quotedRfc_ho : ∀ c, c ≠ '"' → escChar Gen.quotedRfcPairs c = [c] := fun c hc =>
   escChar_id_of_keys Gen.quotedRfcPairs ['"'] (by decide) c (by simpa using hc)
 
+theorem join_hn : escChar Gen.joinPairs '\n' = ['\\', 'n'] := by decide
+
+theorem join_ho : ∀ c, c ≠ '\n' → escChar Gen.joinPairs c = [c] := fun c hc =>
+  escChar_id_of_keys Gen.joinPairs ['\n'] (by decide) c (by simpa using hc)
+
+theorem joinLines_cons (c : Char) (s : Str) :
+    joinLines (c :: s) = (if c = '\n' then ['\\', 'n'] else [c]) ++ joinLines s := by
+  by_cases h : c = '\n'
+  · subst h; simp [joinLines, escape, join_hn]
+  · simp [joinLines, escape, join_ho c h, h]
+
 /-! ## XML -/
 
 theorem xmlGo_plain_cons (c : Char) (t : Str) (h1 : c ≠ '&') (h2 : c ≠ '<') :
